@@ -1122,6 +1122,18 @@ func pairHistories(w *run.Worker, r *run.Runner, tier string) {
 				ok = false
 			}
 		}
+		// a nil options value, the zero value and an empty parameter map are equivalent (results and error texts)
+		if ok && c.Kind == "compile" && c.Opt == -1 {
+			for _, o := range []int{0, 1, 2} {
+				rt.Restore()
+				if alt := safe(call{c.Kind, c.Src, o}, mkOptions()); alt != first {
+					w.Begin("pair-histories", c.Src)
+					w.Fail("options-not-equivalent", c.Src, fmt.Sprintf("compile %q returns %+v without options and %+v with options #%d (nil / zero value / empty map)", c.Src, first, alt, o), map[string]any{"repeat": c})
+					ok = false
+					break
+				}
+			}
+		}
 		if ok {
 			stable = append(stable, c)
 			stableFresh = append(stableFresh, first)
